@@ -135,3 +135,160 @@ func VerifRTXUnwrap(
 
 	return out, receiver.Stop()
 }
+
+// VerifRTXEvent is one packet of a VerifRTXHistory script: a whole buffer
+// (every byte of the destination buffer is overwritten) and the byte count
+// the interceptor reports, arriving on the primary or on the repair stream.
+type VerifRTXEvent struct {
+	Primary bool
+	Buf     []byte
+	N       int
+}
+
+// VerifRTXResult is what came of one VerifRTXEvent.
+type VerifRTXResult struct {
+	Primary   bool
+	Dropped   bool // repair packet ignored by the repair reader
+	Err       bool // TrackRemote.Read returned an error (with the packet)
+	Read      VerifRTXRead
+	TrackPT   uint8 // TrackRemote.PayloadType() / SSRC() after the event
+	TrackSSRC uint32
+}
+
+// VerifRTXHistory drives one RTPReceiver with a primary and a repair stream
+// through a script of packets, each read through TrackRemote.Read before the
+// next one arrives (property C26, histories): primary packets go through
+// readRTP and checkAndUpdateTrack, repair packets through the repair-stream
+// goroutine of maybeStartRepairStreamReader and readRTX. The media engine
+// knows exactly the video codecs given. initPT == 0 leaves the track as a
+// fresh receiver has it (payload type 0, no codec parameters); otherwise the
+// track starts with that payload type and the matching codec of the list (or,
+// when there is none, a VP8 placeholder as in VerifRTXUnwrap).
+func VerifRTXHistory( //nolint:gocognit,cyclop
+	mtu uint, codecs []RTPCodecParameters, initPT uint8, primarySSRC, rtxSSRC uint32, events []VerifRTXEvent,
+) ([]VerifRTXResult, error) {
+	if len(events) > 45 { // the repair channel holds 50 packets
+		return nil, errors.New("verif: bad script") //nolint:err113
+	}
+	me := &MediaEngine{}
+	for _, c := range codecs {
+		if err := me.RegisterCodec(c, RTPCodecTypeVideo); err != nil {
+			return nil, err
+		}
+	}
+	se := SettingEngine{}
+	se.SetReceiveMTU(mtu)
+	api := NewAPI(WithSettingEngine(se), WithMediaEngine(me))
+	receiver, err := api.NewRTPReceiver(RTPCodecTypeVideo, &DTLSTransport{api: api})
+	if err != nil {
+		return nil, err
+	}
+	receiver.configureReceive(RTPReceiveParameters{Encodings: []RTPDecodingParameters{{
+		RTPCodingParameters: RTPCodingParameters{
+			SSRC: SSRC(primarySSRC),
+			RTX:  RTPRtxParameters{SSRC: SSRC(rtxSSRC)},
+		},
+	}}})
+	track := receiver.tracks[0].track
+	if initPT != 0 {
+		codec := RTPCodecParameters{
+			RTPCodecCapability: RTPCodecCapability{MimeType: MimeTypeVP8, ClockRate: 90000},
+			PayloadType:        PayloadType(initPT),
+		}
+		for _, c := range codecs {
+			if c.PayloadType == PayloadType(initPT) {
+				codec = c
+			}
+		}
+		track.mu.Lock()
+		track.payloadType = PayloadType(initPT)
+		track.codec = codec
+		track.params = RTPParameters{Codecs: []RTPCodecParameters{codec}}
+		track.mu.Unlock()
+	}
+
+	primCh := make(chan VerifRTXEvent, 1)
+	rtxCh := make(chan VerifRTXEvent, 1)
+	back := make(chan struct{}, 1) // the repair goroutine is back at its Read: the previous packet is dealt with
+	feed := func(ch chan VerifRTXEvent, signal bool) interceptor.RTPReaderFunc {
+		return func(b []byte, a interceptor.Attributes) (int, interceptor.Attributes, error) {
+			if signal {
+				back <- struct{}{}
+			}
+			ev, ok := <-ch
+			if !ok {
+				return 0, a, io.EOF
+			}
+			if len(b) != len(ev.Buf) {
+				panic("verif: buffer length differs from the receive MTU") //nolint:forbidigo
+			}
+			copy(b, ev.Buf)
+
+			return ev.N, a, nil
+		}
+	}
+	receiver.mu.Lock()
+	receiver.tracks[0].streamInfo = &interceptor.StreamInfo{SSRC: primarySSRC}
+	receiver.tracks[0].rtpInterceptor = feed(primCh, false)
+	receiver.mu.Unlock()
+	if err = receiver.receiveForRtx(
+		SSRC(rtxSSRC), "", &interceptor.StreamInfo{SSRC: rtxSSRC}, nil, feed(rtxCh, true), false, nil, nil,
+	); err != nil {
+		return nil, err
+	}
+	close(receiver.received)
+	wait := func() error {
+		select {
+		case <-back:
+			return nil
+		case <-time.After(10 * time.Second):
+			return errors.New("verif: repair reader did not come back") //nolint:err113
+		}
+	}
+	// what the first TrackRemote.Read does before it reads
+	if track.repairReadRequested.CompareAndSwap(false, true) {
+		receiver.requestRepairStreamReader(track)
+	}
+	if err = wait(); err != nil {
+		return nil, err
+	}
+
+	buf := make([]byte, mtu)
+	out := make([]VerifRTXResult, 0, len(events))
+	for _, ev := range events {
+		res := VerifRTXResult{Primary: ev.Primary}
+		read := true
+		if ev.Primary {
+			primCh <- ev
+		} else {
+			rtxCh <- ev
+			if err = wait(); err != nil {
+				return nil, err
+			}
+			receiver.mu.RLock()
+			queued := len(receiver.tracks[0].repairStreamChannel)
+			receiver.mu.RUnlock()
+			if queued == 0 {
+				res.Dropped, read = true, false
+			}
+		}
+		if read {
+			n, attr, rerr := track.Read(buf)
+			res.Err = rerr != nil
+			res.Read = VerifRTXRead{Packet: append([]byte(nil), buf[:n]...)}
+			if attr != nil {
+				pt, ok1 := attr.Get(AttributeRtxPayloadType).(uint8)
+				seq, ok2 := attr.Get(AttributeRtxSequenceNumber).(uint16)
+				ssrc, ok3 := attr.Get(AttributeRtxSsrc).(uint32)
+				res.Read.HasAttr = ok1 && ok2 && ok3
+				res.Read.RtxPT, res.Read.RtxSeq, res.Read.RtxSSRC = pt, seq, ssrc
+			}
+		}
+		res.TrackPT, res.TrackSSRC = uint8(track.PayloadType()), uint32(track.SSRC())
+		out = append(out, res)
+	}
+	close(rtxCh)
+	close(primCh)
+
+	return out, receiver.Stop()
+}
